@@ -2,6 +2,7 @@ package saslauthenticate
 
 import (
 	"encoding/binary"
+	"fmt"
 	"io"
 
 	"github.com/segmentio/kafka-go/protocol"
@@ -42,10 +43,18 @@ func (r *Request) readResp(read io.Reader) (protocol.Message, error) {
 		return nil, err
 	}
 	respLen := int32(binary.BigEndian.Uint32(lenBuf[:]))
-	data := make([]byte, respLen)
+	if respLen < 0 {
+		return nil, fmt.Errorf("invalid SASL authentication response length: %d", respLen)
+	}
 
-	if _, err := io.ReadFull(read, data[:]); err != nil {
+	// The token is read as it arrives: the length announced by the peer must
+	// not size an allocation before any of its bytes has been received.
+	data, err := io.ReadAll(io.LimitReader(read, int64(respLen)))
+	if err != nil {
 		return nil, err
+	}
+	if len(data) < int(respLen) {
+		return nil, io.ErrUnexpectedEOF
 	}
 	return &Response{
 		AuthBytes: data,
